@@ -418,3 +418,30 @@ def run(ctx):
     miss = [x for x in irec if x not in copied]
     if miss:
         r7.note("cross-reference (not armed): item_copy does not copy %s of struct item - an inherited by-value private key loses its `sensitive` mark (logging only)" % miss)
+
+    # ------------------------------------------------------------------ R8
+    # "of the moment" includes the namespace name the default file names are built from: it is looked up afresh on
+    # every call - nothing on that path remembers an earlier answer (no static, thread-local or global state)
+    r8 = ctx.rule("C18.R8", "the network namespace name behind the default credential file names is determined afresh on every call (no remembered state)")
+    from .. import callgraph as CG
+    fin = P.fn("finalize_tls_conf")
+    name_fns = set()
+    for c in fin.calls():
+        for d in P.callees(fin, c)[0]:
+            # role: the util.c function that fills a caller-supplied name buffer and reads /proc or /run/netns to do so
+            if d.file.endswith("common/util.c") and any(f.nodes[x].get("callee") in ("opendir", "readdir", "stat", "readlink") for f in [d] for x in f.calls()):
+                name_fns.add(d)
+    if not name_fns:
+        raise Broken("C18.R8: the namespace-name lookup called by finalize_tls_conf was not found")
+    reach8, _ = CG.reach(P, sorted(name_fns, key=lambda g: g.name))
+    for g in reach8:
+        r8.instance(g.qname)
+        hits = sorted({(n["name"], n.get("dk")) for n in g.nodes.values() if n["k"] == "ref" and n.get("dk") in ("global", "static_local")
+                       and n["name"] not in ("stderr", "stdout")})
+        tl = [v["name"] for m in g.nodes.values() if m["k"] == "decl" for v in m["vars"] if v.get("tls") or v.get("static")]
+        if hits or tl:
+            r8.violation("%s:remembered-state" % g.name, "%s, on the path that names the per-namespace credential files, uses state that outlives the call (%s): a namespace "
+                         "that is named, renamed or replaced later keeps its old name for this thread, so sockets load another identity's files"
+                         % (g.name, ", ".join([h[0] for h in hits] + tl)), loc=g.file)
+        else:
+            r8.ok("%s keeps nothing between calls" % g.qname, "no reference to static-duration objects")
